@@ -237,3 +237,9 @@ Theorem C07_cap2_encode_string_old_refuted :
   exists bits, Forall (fun b => b <= 32) bits /\ lenN bits = 1 /\ 4 * 1 < snd (tmp_encode bits).
 Proof. exact encode_string_old_refuted. Qed.
 Print Assumptions C07_cap2_encode_string_old_refuted.
+
+(* RPHTFC: the two bytes appended for the header decoder's read-ahead, after the growth loop on `bytesStrings + 2` *)
+Theorem C07_cap2_rphtfc_tail_ok : forall cursor reserved, 1 <= reserved ->
+  let r := CapacityDefs.cap_grow (cursor + 2) reserved in cursor < r /\ cursor + 1 < r.
+Proof. exact tail2_ok. Qed.
+Print Assumptions C07_cap2_rphtfc_tail_ok.
